@@ -15,6 +15,7 @@ import (
 	"bytes"
 	"context"
 	"crypto/sha256"
+	"encoding/json"
 	"fmt"
 	"math/rand"
 	"os"
@@ -50,6 +51,7 @@ func ctxDecls() native.Declarations {
 		"Stop":  func(env native.Env, e int) { r := recOf(env); r.tr = append(r.tr, 3, byte(e)); env.Stop(stopErrs[e&255]) },
 		"Fatal": func(env native.Env, v int) { r := recOf(env); r.tr = append(r.tr, 4, byte(v)); env.Fatal(fmt.Sprintf("f%d", v)) },
 		"P":     func(v int) { panic(fmt.Sprintf("p%d", v)) },
+		"Call":  func(f func()) { f() },
 	}
 }
 
@@ -246,6 +248,7 @@ func isoDecls(in func(env native.Env) int) native.Declarations {
 		"Itoa":  func(n int) string { return fmt.Sprint(n) },
 		"SumV":  func(xs ...int) int { t := 0; for _, x := range xs { t += x }; return t },
 		"Apply": func(f func(int) int, x int) int { return f(x) },
+		"Yield": yieldNative,
 		"NewAcc": func() *Acc { return &Acc{} },
 		"Fold": func(xs []int, f func(a, b int) int) int {
 			t := 0
@@ -291,13 +294,20 @@ func buildIso(src isoSource) (*isoArtefact, error) {
 }
 
 // run returns the canonical text of one run with input n.
-func (a *isoArtefact) run(n int) (res string) {
+func (a *isoArtefact) run(n int) (res string) { return a.runWith(n, nil) }
+
+// runWith: bar is the barrier of the concurrent runs (nil in a solo run).
+func (a *isoArtefact) runWith(n int, bar *barrier) (res string) {
 	defer func() {
 		if r := recover(); r != nil {
 			res = fmt.Sprintf("HOST-PANIC %v", r)
 		}
 	}()
 	ctx := context.WithValue(context.Background(), inKey{}, n)
+	if bar != nil {
+		ctx = context.WithValue(ctx, barKey{}, bar)
+		defer bar.leave()
+	}
 	var out bytes.Buffer
 	var err error
 	if a.prog != nil {
@@ -310,11 +320,27 @@ func (a *isoArtefact) run(n int) (res string) {
 
 // isoWorker is the body of C10-worker (and of the fallback without the race detector).
 func isoWorker(c *Ctx) {
+	if strings.HasPrefix(c.Arg, "histories:") {
+		// the histories of a run, in a process of their own, from the given index on
+		from := 0
+		fmt.Sscanf(c.Arg, "histories:%d", &from)
+		for h := 0; h < 3*c.N; h++ {
+			hist := genHistory(c.Rng)
+			if h < from {
+				continue
+			}
+			b, _ := json.Marshal(hist)
+			c.Line("HISTORY", fmt.Sprint(h), string(b))
+			c.Out.Flush()
+			runHistory(c, hist)
+		}
+		return
+	}
 	rounds := c.N
 	procs := []int{1, 2, 4, 16}
 	for round := 0; round < rounds; round++ {
 		runtime.GOMAXPROCS(procs[round%len(procs)])
-		for _, src := range isoSources(c.Rng) {
+		for _, src := range append(isoSources(c.Rng), overlapSources(c.Rng)...) {
 			shared, err := buildIso(src)
 			if err != nil {
 				c.Fail("generator-build-error", map[string]string{"source": src.name, "error": err.Error()})
@@ -337,16 +363,20 @@ func isoWorker(c *Ctx) {
 			for i := range jitter {
 				jitter[i] = time.Duration(c.Rng.Intn(300)) * time.Microsecond
 			}
+			bar := newBarrier(k)
 			var wg sync.WaitGroup
 			for i := 0; i < k; i++ {
 				wg.Add(1)
 				go func(i int) {
 					defer wg.Done()
 					time.Sleep(jitter[i])
-					got[i] = shared.run(inputs[i])
+					got[i] = shared.runWith(inputs[i], bar)
 				}(i)
 			}
 			wg.Wait()
+			if bar.waits > 0 {
+				c.Count("lockstep_families")
+			}
 			for i := 0; i < k; i++ {
 				c.Count("evaluations")
 				c.Count("nontrivial")
@@ -369,6 +399,61 @@ func isoWorker(c *Ctx) {
 		}
 	}
 	runtime.GOMAXPROCS(runtime.NumCPU())
+}
+
+// isoReplay re-executes a recorded failure: a history, or the concurrent runs
+// of one recorded source with the recorded input.
+func isoReplay(c *Ctx, in map[string]any) bool {
+	if hv, ok := in["history"]; ok {
+		if h := histStepsFromReplay(hv); len(h) > 0 {
+			replayHistoryInChild(c, h)
+			return true
+		}
+	}
+	prog, _ := in["program"].(string)
+	tmpl, _ := in["template"].(string)
+	if prog == "" && tmpl == "" {
+		return false
+	}
+	name, _ := in["source"].(string)
+	src := isoSource{name: name, program: prog, template: tmpl}
+	k := 2
+	if f, ok := in["concurrent_runs"].(float64); ok && f >= 2 {
+		k = int(f)
+	}
+	input := 1
+	if f, ok := in["input"].(float64); ok {
+		input = int(f)
+	}
+	shared, err := buildIso(src)
+	fresh, err2 := buildIso(src)
+	if err != nil || err2 != nil {
+		c.Fail("generator-build-error", map[string]string{"source": name})
+		return true
+	}
+	want := fresh.run(input)
+	for attempt := 0; attempt < 20; attempt++ {
+		got := make([]string, k)
+		bar := newBarrier(k)
+		var wg sync.WaitGroup
+		for i := 0; i < k; i++ {
+			wg.Add(1)
+			go func(i int) { defer wg.Done(); got[i] = shared.runWith(input, bar) }(i)
+		}
+		wg.Wait()
+		for i := 0; i < k; i++ {
+			c.Count("evaluations")
+			if got[i] != want {
+				c.Fail("concurrent-run-differs-from-fresh-copy", map[string]any{"source": name, "program": prog, "template": tmpl, "input": input, "concurrent_runs": k, "got": got[i], "want": want})
+				return true
+			}
+		}
+		if g := shared.run(input); g != want {
+			c.Fail("repeated-run-differs-from-fresh-copy", map[string]any{"source": name, "program": prog, "template": tmpl, "input": input, "got": g, "want": want})
+			return true
+		}
+	}
+	return true
 }
 
 // raceBinary builds this harness with -race (needs cgo) next to the running binary.
@@ -449,9 +534,14 @@ func registerIsolation() {
 
 	Register("C10-worker", isoWorker)
 
+	registerIsolationHist()
+
 	Register("C10-sweep", func(c *Ctx) {
 		if in := c.ReplayInput(); in != nil {
-			// a replay re-runs the whole family (the failing interleaving is not reproducible by an input alone)
+			if isoReplay(c, in) {
+				return
+			}
+			// otherwise a replay re-runs the whole family (the failing interleaving is not reproducible by an input alone)
 			c.N = 2
 		}
 		bin, err := raceBinary()
@@ -460,43 +550,90 @@ func registerIsolation() {
 			c.Stats["race_detector"] = 0
 			c.Sample(map[string]string{"race_detector": "unavailable: " + err.Error()})
 			isoWorker(c)
+			c.Arg = "histories:0"
+			isoWorker(c)
 			return
 		}
 		c.Stats["race_detector"] = 1
-		cmd := exec.Command(bin, "C10-worker", "-seed", fmt.Sprint(c.Seed), "-n", fmt.Sprint(c.N), "-tier", c.Tier)
-		cmd.Env = append(os.Environ(), "GORACE=halt_on_error=0 exitcode=66")
-		var stdout, stderr bytes.Buffer
-		cmd.Stdout, cmd.Stderr = &stdout, &stderr
-		runErr := cmd.Run()
-		sc := bufio.NewScanner(&stdout)
-		sc.Buffer(make([]byte, 1<<20), 1<<26)
-		for sc.Scan() {
-			l := sc.Text()
-			switch {
-			case strings.HasPrefix(l, "FAIL\t"):
-				c.Out.WriteString(l + "\n")
-				c.Stats["failures"]++
-			case strings.HasPrefix(l, "STATS\t"):
-				var st struct {
-					Counts  map[string]int `json:"counts"`
-					Samples []any          `json:"samples"`
-				}
-				if jsonUnmarshal(l[6:], &st) == nil {
-					for k, v := range st.Counts {
-						c.Stats[k] += v
+		// two workers at the same time: the families of concurrent runs, and the histories
+		type workerOut struct {
+			stdout, stderr string
+			err            error
+		}
+		runWorker := func(arg string) workerOut {
+			args := []string{"C10-worker", "-seed", fmt.Sprint(c.Seed), "-n", fmt.Sprint(c.N), "-tier", c.Tier}
+			if arg != "" {
+				args = append(args, "-arg", arg)
+			}
+			cmd := exec.Command(bin, args...)
+			cmd.Env = append(os.Environ(), "GORACE=halt_on_error=0 exitcode=66")
+			var stdout, stderr bytes.Buffer
+			cmd.Stdout, cmd.Stderr = &stdout, &stderr
+			err := cmd.Run()
+			return workerOut{stdout.String(), stderr.String(), err}
+		}
+		collect := func(o workerOut) (lastHistory string, lastIndex int) {
+			lastIndex = -1
+			sc := bufio.NewScanner(strings.NewReader(o.stdout))
+			sc.Buffer(make([]byte, 1<<20), 1<<26)
+			for sc.Scan() {
+				l := sc.Text()
+				switch {
+				case strings.HasPrefix(l, "FAIL\t"):
+					c.Out.WriteString(l + "\n")
+					c.Stats["failures"]++
+				case strings.HasPrefix(l, "HISTORY\t"):
+					parts := strings.SplitN(l, "\t", 3)
+					if len(parts) == 3 {
+						fmt.Sscan(parts[1], &lastIndex)
+						lastHistory = parts[2]
 					}
-					for _, s := range st.Samples {
-						c.Sample(s)
+				case strings.HasPrefix(l, "STATS\t"):
+					var st struct {
+						Counts  map[string]int `json:"counts"`
+						Samples []any          `json:"samples"`
+					}
+					if jsonUnmarshal(l[6:], &st) == nil {
+						for k, v := range st.Counts {
+							c.Stats[k] += v
+						}
+						for _, s := range st.Samples {
+							c.Sample(s)
+						}
 					}
 				}
 			}
+			return
 		}
-		races := strings.Count(stderr.String(), "WARNING: DATA RACE")
+		famCh := make(chan workerOut, 1)
+		go func() { famCh <- runWorker("") }()
+		var stderrAll strings.Builder
+		// the histories; a worker that dies is restarted after the history that killed it
+		from := 0
+		for attempt := 0; attempt < 4 && from < 3*c.N; attempt++ {
+			o := runWorker(fmt.Sprintf("histories:%d", from))
+			stderrAll.WriteString(o.stderr)
+			hist, idx := collect(o)
+			if o.err == nil || strings.Contains(o.err.Error(), "exit status 66") {
+				break
+			}
+			var hv any
+			jsonUnmarshal(hist, &hv)
+			c.Fail("process-dies-during-history", map[string]any{"history": hv, "error": o.err.Error(), "stderr": lastLines(o.stderr, 12)})
+			if idx < 0 {
+				break
+			}
+			from = idx + 1
+		}
+		fam := <-famCh
+		stderrAll.WriteString(fam.stderr)
+		collect(fam)
+		races := strings.Count(stderrAll.String(), "WARNING: DATA RACE")
 		c.Stats["data_races"] = races
 		if races > 0 {
-			c.Fail("data-race", map[string]any{"reports": races, "first_report": firstRace(stderr.String())})
-		} else if runErr != nil {
-			c.Fail("race-worker-failed", map[string]any{"error": runErr.Error(), "stderr": lastLines(stderr.String(), 12)})
+			c.Fail("data-race", map[string]any{"reports": races, "first_report": firstRace(stderrAll.String())})
+		} else if fam.err != nil {
+			c.Fail("race-worker-failed", map[string]any{"error": fam.err.Error(), "stderr": lastLines(fam.stderr, 12)})
 		}
 	})
 }
